@@ -5,7 +5,12 @@ ALPHABET = [chr(c) for c in range(32, 127)] + ["\n", "\t"]
 
 SPECIALS = ["$(touch canary)", "`touch canary`", "; touch canary", "a;touch canary", "$HOME", "${PATH}", "$x", "*", "?", "[a-z]*", "-n", "-e", "-e x", "-E", "-notes.txt", "--help", "--", "-", "-rf x",
             "-neE", "a  b", " lead", "trail ", "  ", "\\n", "\\\\", "\\", "%s", "%d%%", "!", "!!", "#c", "~", "a\"b", "\"", "\"\"", "'", "a'b", "it's \"q\"",
-            "a\nb", "a\tb", "$(", "${", "$((1+1))", "a&b", "a|b", "a>b", "a<b", "(x)", "{a,b}", "&&", "||", "x=1", "-", "--", "", "0", "a b c"]
+            "a\nb", "a\tb", "$(", "${", "$((1+1))", "a&b", "a|b", "a>b", "a<b", "(x)", "{a,b}", "&&", "||", "x=1", "-", "--", "", "0", "a b c",
+            # two-character sequences with a backslash: what the shell makes of a backslash depends on the character BEHIND it
+            # (round 12: C08-E doubled a backslash only in front of \ " $ ` - and forgot the line break: backslash + LF inside
+            # double quotes is a line continuation, both characters vanish)
+            "a\\\nb", "\\\n", "\\\nz", "a\\\n", "a\\\\\nb", "tar \\\n  --x \\\n  src", "\\$x", "\\`", "\\\"", "\\!", "\\ ", "\\\t", "$\\", "\\a", "\\'",
+            "\\$(touch canary)", "\\\\$HOME"]
 
 
 def go_quote(s):
@@ -43,4 +48,8 @@ def all_strings(quick):
             out.append(("%r@%s" % (ch, k), ps[k]))
     for s in SPECIALS:
         out.append(("special:%r" % s, s))
+    if not quick:
+        for ch in ALPHABET:
+            out.append(("backslash+%r" % ch, "a\\" + ch + "b"))
+            out.append(("%r+backslash" % ch, "a" + ch + "\\"))
     return out
